@@ -947,6 +947,19 @@ class C10(CleanerCheck):
         d = None
         if any(sp.get("via") == "file" for sp in case["specs"]):
             d = tempfile.mkdtemp(prefix="w3-", dir=scratch_base())
+        probe = probe_before = None
+        if case["cfg"]["obfuscate"] and not case.get("concurrent") and not case.get("max_line"):
+            # what a FRESH cleaner makes of a fixed content must not depend on what other cleaners of this process did
+            # before: the probe is made of the very substitutes the history is about to issue (predicted from the
+            # documented scheme), cleaned by a fresh cleaner before the history and by another one after it
+            macs = planted(case, ("mac",))
+            nip = len(planted(case, ("ip",)))
+            nh = len(planted(case, ("host", "fqdn")))
+            probe = ["probe %s end" % mac_substitute(m) for m in macs[:4]]
+            probe += ["probe 10.230.230.%d end" % k for k in range(1, min(nip, 3) + 1)]
+            probe += ["probe host%d.example.com end" % k for k in range(1, min(nh, 3) + 1)]
+            if probe:
+                probe_before = Cleaner(Cfg(**case["cfg"]), rm_conf_of(case), fqdn=case["fqdn"]).clean_content(list(probe))
         try:
             r = run_history(case, facts_dir=d)
             ref = run_history(case, facts_dir=d, serial=True) if case.get("concurrent") else None
@@ -954,6 +967,14 @@ class C10(CleanerCheck):
             if d:
                 shutil.rmtree(d, ignore_errors=True)
         viols = oracle_c10(case, r, stats)
+        if probe_before is not None:
+            probe_after = Cleaner(Cfg(**case["cfg"]), rm_conf_of(case), fqdn=case["fqdn"]).clean_content(list(probe))
+            stats["probes"]["fresh_cleaner_probed_before_and_after"] = 1
+            if probe_after != probe_before:
+                bad = [(a, b) for a, b in zip(probe_before, probe_after) if a != b][:1]
+                viols.append(V("C10.deterministic", "fresh-cleaner-depends-on-earlier-cleaners",
+                               "a fresh Cleaner (same configuration) cleaned the same lines before and after another cleaner of this "
+                               "process had worked: %r" % (bad or [(probe_before, probe_after)],)))
         if ref is not None and (ref.outputs, ref.raised) != (r.outputs, r.raised):
             bad = [(si, a, b) for si, (a, b) in enumerate(zip(ref.outputs, r.outputs)) if a != b][:1]
             viols.append(V("C10.deterministic", "concurrent-output-differs-from-serial",
